@@ -86,6 +86,9 @@ pub struct Shape {
     pub custom: usize,
     /// broadcast handler answer mode symbolic (else: accepts)
     pub handler_arb: bool,
+    /// helpers already asked in the probe round in flight (concrete: a
+    /// symbolic-length Vec makes later pushes intractable)
+    pub n_ind: usize,
 }
 
 impl Shape {
@@ -97,6 +100,7 @@ impl Shape {
             backlog: 0,
             custom: 0,
             handler_arb: false,
+            n_ind: 0,
         }
     }
 }
@@ -145,14 +149,15 @@ pub fn arb_foca(s: &mut impl Src, sh: Shape) -> F {
 
     // --- probe ----------------------------------------------------------------
     let fanout = config.num_indirect_probes.get();
-    let mut indirect: Vec<Id> = Vec::with_capacity(fanout);
+    // concrete capacity: a symbolic-capacity allocation makes every later push intractable
+    let mut indirect: Vec<Id> = Vec::with_capacity(4);
     let probe_number = s.u8();
     let view = if sh.probe && connection_state == ConnectionState::Connected && s.bool() {
         let target = arb_member(s);
         // I5
         s.assume(target.id().addr != identity.addr);
         s.assume(target.state() != State::Down);
-        let n_ind = s.below(3) as usize;
+        let n_ind = sh.n_ind;
         s.assume(n_ind <= fanout);
         let h0 = Id::arb(s);
         let h1 = Id::arb(s);
